@@ -4,37 +4,13 @@ C13: the hypotheses of the GLOBAL `content_preserved` as ONE decidable check
 the direct stream, and by `decide` in the non-vacuity examples.
 -/
 import Martian.PostProcess
+import Martian.PostProcessDefs
 import Proofs.PostProcess
 import Proofs.PostProcessLeaves
 import Proofs.PostProcessDests
 import Proofs.PostProcessContent
 
 namespace Martian.PostProcess
-
-/-- `apart` and `status` for one leaf -/
-def leafOkB (ps top : Path) (fs : FS) (l : Leaf) : Bool :=
-  (match l.src with
-   | none => true
-   | some p =>
-     !isPrefix p top && !isPrefix top p &&
-       (match fs.get p with
-        | none => true
-        | some e => !e.isLink && inside ps p)) &&
-  (fs.get l.dest).isNone
-
-/-- the sources of two leaves are not nested -/
-def srcApartB (l1 l2 : Leaf) : Bool :=
-  match l1.src, l2.src with
-  | some p1, some p2 => !isPrefix p1 p2 && !isPrefix p2 p1
-  | _, _ => true
-
-def nonnestB : List Leaf → Bool
-  | [] => true
-  | l :: ls => ls.all (srcApartB l) && nonnestB ls
-
-/-- the side conditions of `content_preserved` (`apart`, `nonnest`, `status`, `free`), decidable -/
-def cleanB (ps top : Path) (fs : FS) (ls : List Leaf) : Bool :=
-  ls.all (leafOkB ps top fs) && nonnestB ls
 
 theorem nonnestB_sound (ls : List Leaf) (h : nonnestB ls = true) :
     ls.Pairwise (fun l1 l2 => ∀ p1 p2, l1.src = some p1 → l2.src = some p2 → ¬ p1 <+: p2 ∧ ¬ p2 <+: p1) := by
@@ -74,28 +50,5 @@ theorem cleanB_sound (ps top : Path) (fs : FS) (params : List (String × String 
     exact this.2
 
 /-! ## a substantial example record (used by the non-vacuity examples of Props.C13) -/
-
-/-- a struct with two file members and a scalar, a 2-dimensional file array, a typed map of file arrays -/
-def exSig3 : List (String × String × Ty) :=
-  [("s", "", .struct [("f", "", .file "txt"), ("g", "out.bin", .file ""), ("n", "", .scalar)]),
-   ("r", "", .arr (.file "") 1), ("m", "", .tmap (.arr (.file "bam") 0))]
-
-/-- six file leaves: two struct members, a DIRECTORY and a missing file and (after a null) a file in
-the 2-dimensional array, one file under a map key -/
-def exOuts3 : List (String × J) :=
-  [("s", .obj [("f", .str "/ps/MK/files/sf"), ("g", .str "/ps/MK/files/sg"), ("n", .lit "3")]),
-   ("r", .arr [.arr [.str "/ps/MK/files/d", .str "/ps/MK/files/nope"], .arr [.null, .str "/ps/MK/files/r11"]]),
-   ("m", .obj [("k1", .arr [.str "/ps/MK/files/m0"]), ("b", .arr [])])]
-
-def exFS3 : FS :=
-  { get := fun q =>
-      if q = ["ps", "MK", "files", "sf"] then some (.file 1)
-      else if q = ["ps", "MK", "files", "sg"] then some (.file 2)
-      else if q = ["ps", "MK", "files", "d", "inner"] then some (.file 3)
-      else if q = ["ps", "MK", "files", "r11"] then some (.file 4)
-      else if q = ["ps", "MK", "files", "m0"] then some (.file 5)
-      else if q = ["ps"] ∨ q = ["ps", "MK"] ∨ q = ["ps", "MK", "files"] ∨ q = ["ps", "MK", "files", "d"]
-        then some .dir else none
-    dom := [] }
 
 end Martian.PostProcess
